@@ -308,7 +308,7 @@ class C06Oracle(Oracle):
 class C08WireOracle(Oracle):
     """In-flight bytes put on the wire per datagrams_to_send() call versus
     congestion_window - bytes_in_flight read just before the call (the property's own
-    observation point), plus one datagram for a probe after a timer fired."""
+    observation point), plus one datagram for a probe requested by loss recovery."""
 
     def __init__(self):
         self.budget = None
@@ -321,10 +321,27 @@ class C08WireOracle(Oracle):
     def on_start(self, sim):
         self.sim = sim
 
+    def _watch_probes(self, ep):
+        """A probe datagram beyond the window is owed when, and only when, loss recovery asks for one
+        (probe timeout, or data rescheduled because keys are missing): observed at the recovery
+        object's send_probe callback, which is independent of how the connection books the probe."""
+        loss = ep.conn._loss
+        if getattr(loss, "_verif_probe_watch", False):
+            return
+        orig = loss._send_probe
+        name = ep.name
+
+        def send_probe():
+            self.timer_since[name] += 1  # "one probe datagram per timeout": each request owes one
+            return orig()
+
+        loss._send_probe = send_probe
+        loss._verif_probe_watch = True
+
     def on_api_call(self, ep, name, args):
-        if name == "handle_timer":
-            self.timer_since[ep.name] += 1
-        elif name == "datagrams_to_send":
+        if ep.conn is not None:
+            self._watch_probes(ep)
+        if name == "datagrams_to_send":
             loss = ep.conn._loss
             avail = max(loss.congestion_window - loss.bytes_in_flight, 0)
             probe = ep.config.max_datagram_size if self.timer_since[ep.name] else 0
